@@ -274,6 +274,11 @@ impl<K: HKey> Store<K> {
 
     /// Everything observable through the public API and the directory, in abstract terms.
     pub fn observe(&self) -> Value {
+        self.observe_opt(false)
+    }
+
+    /// `lite` leaves out the bulky read results (get_reader, get_size, get_range, range iteration).
+    pub fn observe_opt(&self, lite: bool) -> Value {
         let u = &self.u;
         let nk = NK;
         let mut idx = vec![json!("-"); nk];
@@ -315,7 +320,7 @@ impl<K: HKey> Store<K> {
                     let st = g.stats();
                     stats = json!([st.cas.unique_blobs, st.cas.total_bytes]);
                     ixsz = st.index.serialized_size_bytes;
-                    for lo in 1..=nk {
+                    for lo in 1..=(if lite { 0 } else { nk }) {
                         for hi in lo..=nk {
                             let ks: Vec<usize> =
                                 g.range::<K, _>(u.key(lo)..=u.key(hi)).map(|(k, _)| u.abs_of_key(k)).collect();
@@ -334,6 +339,9 @@ impl<K: HKey> Store<K> {
                         Ok(None) => json!("-"),
                         Err(e) => json!(format!("!{}", err_class(&e))),
                     };
+                    if lite {
+                        continue;
+                    }
                     gsize[a - 1] = match cas.get_size(&k) {
                         Ok(Some(s)) => json!(s),
                         Ok(None) => json!(-1),
@@ -383,7 +391,8 @@ impl<K: HKey> Store<K> {
         json!({
             "open": self.cas.is_some(), "idx": idx, "sizes": sizes, "iter": iter, "len": len, "xkeys": extra_keys,
             "refc": refc, "refx": refx, "stats": stats, "ixsz": ixsz,
-            "get": get, "gsize": gsize, "rdr": rdr, "rng": rng, "ranges": ranges,
+            "get": get, "gsize": if lite { vec![] } else { gsize }, "rdr": if lite { vec![] } else { rdr },
+            "rng": rng, "ranges": ranges,
             "orph": orph,
             "disk": alpha::alpha(&self.root, &self.names, NK),
         })
